@@ -118,7 +118,7 @@ Section texit.
     assert (Hri' : ridx s = N.of_nat (length stk) + 1) by lia.
     symmetry in E1.
     unfold c. rewrite (leave_in 0 gd ms sh s w a t0 _ _ t1 l _ E1 Hfc' Hen Hri') by lia.
-    assert (E0 : (0 <? t1 - t0) = true) by (apply N.ltb_lt; lia). rewrite E0. cbn [orb].
+    assert (E0 : (0 <=? t1 - t0) = true) by (apply N.leb_le; lia). rewrite E0. cbn [orb].
     eexists. split; [reflexivity|].
     destruct w.
     - pose proof (Hw eq_refl) as AW.
@@ -186,7 +186,7 @@ Section texit.
     assert (Hr1 : (0 <? d + 1) = true) by (apply N.ltb_lt; lia). rewrite Hr1.
     replace (d + 1 - 1) with d by lia.
     subst c. cbn [plain has_caller threshold negb andb orb].
-    assert (Hd0 : (0 <? 18446744073709551616 - t0) = true) by (apply N.ltb_lt; lia). rewrite Hd0.
+    assert (Hd0 : (0 <=? 18446744073709551616 - t0) = true) by (apply N.leb_le; lia). rewrite Hd0.
     cbn [andb orb].
     unfold record_trace_data. rewrite Hw.
     destruct w.
